@@ -100,6 +100,12 @@ binary(struct expr *expr, enum tokenkind op, struct expr *l, struct expr *r)
 	cast(expr);
 }
 
+static bool
+istrue(struct expr *expr)
+{
+	return expr->type->prop & PROPFLOAT ? expr->u.constant.f != 0 : expr->u.constant.u != 0;
+}
+
 struct expr *
 eval(struct expr *expr)
 {
@@ -207,13 +213,19 @@ eval(struct expr *expr)
 			}
 			break;
 		case TLOR:
-			if (l->kind != EXPRCONST)
-				break;
-			return l->u.constant.u ? l : r;
 		case TLAND:
 			if (l->kind != EXPRCONST)
 				break;
-			return l->u.constant.u ? r : l;
+			/* the result is 0 or 1 of type int, decided by the left operand or else by the right one */
+			c = l;
+			if (istrue(l) != (expr->op == TLOR)) {
+				if (r->kind != EXPRCONST)
+					break;
+				c = r;
+			}
+			expr->kind = EXPRCONST;
+			expr->u.constant.u = istrue(c);
+			break;
 		case TDIV:
 		case TMOD:
 			if (l->kind != EXPRCONST || r->kind != EXPRCONST)
